@@ -119,6 +119,37 @@ pub fn dispatch(st: &mut ClaimState, op: &str, f: &[String]) -> Option<String> {
                 Err(e) => err_str(&e),
             }
         }
+        // q.race <threads> <reg> <name> <existing T|F> : REAL concurrency — `threads` OS threads, each with its own connection
+        // to the same database file, call try_start_fetch at the same instant (barrier); answer: "won=<k> lost=<l> err=<e>"
+        "q.race" => {
+            let n: usize = f[0].parse().unwrap();
+            let (reg, name) = (rt(&f[1]), f[2].clone());
+            let p = st.dir.as_ref().unwrap().path().join("versions.db");
+            if f[3] == "T" {
+                let c = Cache::new(&p, 1000, true).expect("open");
+                c.replace_versions(reg, &name, vec!["1.0.0".to_string()]).expect("seed row");
+            } else {
+                let _ = Cache::new(&p, 1000, true).expect("open");      // schema exists before the race
+            }
+            let barrier = Arc::new(std::sync::Barrier::new(n));
+            let mut joins = Vec::new();
+            for _ in 0..n {
+                let (p, name, barrier) = (p.clone(), name.clone(), barrier.clone());
+                joins.push(std::thread::spawn(move || {
+                    let c = Cache::new(&p, 1000, true).expect("open");
+                    barrier.wait();
+                    c.try_start_fetch(reg, &name)
+                }));
+            }
+            let (mut won, mut lost, mut err) = (0, 0, 0);
+            for j in joins {
+                match j.join().expect("thread") { Ok(true) => won += 1, Ok(false) => lost += 1, Err(_) => err += 1 }
+            }
+            // release for the next round
+            let c = Cache::new(&p, 1000, true).expect("open");
+            let _ = c.finish_fetch(reg, &name);
+            format!("won={won} lost={lost} err={err}")
+        }
         "q.dump" => {
             let p = st.dir.as_ref().unwrap().path().join("versions.db");
             dump(&p)
